@@ -1,108 +1,130 @@
-"""C11 demo 4: data written to a server-side connection is silently lost when
-`starttls` is processed while it is still buffered.
+"""C11 / Server: after a fatal send error the connection stays open for writing.
 
-A TCPServer speaks a STARTTLS-style protocol: on b'STARTTLS\n' the application fires
-write(sock, b'GO AHEAD\n') and then starttls(sock) - the only order that makes sense,
-the go-ahead must leave in clear text before the handshake.  The client waits for the
-go-ahead, then upgrades.  A correct implementation hands b'GO AHEAD\n' to the OS before
-(or at least at some point after) the upgrade; the current one never does and fires no
-error or disconnect event either.
+Server._write answers a fatal send error by firing error and clearing the output
+buffer of the connection - but the connection stays in _clients, so later write
+events for it are buffered and sent as if nothing had happened.  Unless the OS
+keeps refusing, the peer receives a stream with a hole: the bytes accepted by
+the OS over the life of the connection are not a prefix of what was written.
+(Client and File close the endpoint on a fatal write error.)
+
+The listening socket is a socket.socket subclass whose accept() returns a
+socket.socket subclass with a scripted send(): call 1 accepts everything,
+call 2 raises the fatal error, later calls accept everything (real sends).
 """
+import errno
 import os
 import socket
-import ssl
 import sys
-import threading
-import time
 
-from circuits import Component, Manager, handler
-from circuits.net.events import starttls, write
+from circuits import Component, handler
+from circuits.net.events import write
 from circuits.net.sockets import TCPServer
 
-import circuits
 
-_here = os.path.dirname(os.path.abspath(__file__))
-_candidates = [
-    os.path.join(os.path.dirname(os.path.dirname(os.path.abspath(circuits.__file__))), 'tests', 'net', 'cert.pem'),
-    os.path.join(os.path.dirname(os.path.dirname(_here)), 'tests', 'net', 'cert.pem'),
-    '/tmp/hunt/c11/tests/net/cert.pem',
-]
-CERT = next((p for p in _candidates if os.path.exists(p)), _candidates[0])
-if not os.path.exists(CERT):
-    print('cannot run: test certificate %s not found' % CERT)
-    sys.exit(0)
+class ScriptedConn(socket.socket):
+    calls = 0
+    fatal = errno.ECONNRESET
 
-seen = []
+    def send(self, data, *flags):
+        cls = type(self)
+        cls.calls += 1
+        if cls.calls == 2:
+            raise OSError(cls.fatal, os.strerror(cls.fatal))
+        return super().send(data, *flags)
+
+
+class Listener(socket.socket):
+    def accept(self):
+        fd, addr = self._accept()
+        return ScriptedConn(self.family, self.type, self.proto, fileno=fd), addr
 
 
 class App(Component):
-    channel = 'sv'
+    def init(self):
+        self.socks = []
+        self.seen = []
 
-    @handler('read')
-    def _on_read(self, sock, data):
-        seen.append(('read', data))
-        if data == b'STARTTLS\n':
-            self.fire(write(sock, b'GO AHEAD\n'))
-            self.fire(starttls(sock))
+    @handler('connect', channel='server')
+    def _on_connect(self, sock, *peer):
+        self.socks.append(sock)
 
-    @handler('error')
-    def _on_error(self, *args):
-        seen.append(('error', args))
+    @handler('error', channel='server')
+    def _on_error(self, sock, exc):
+        self.seen.append('error(%s)' % errno.errorcode.get(exc.args[0], exc.args[0]))
 
-    @handler('disconnect')
-    def _on_disconnect(self, *args):
-        seen.append(('disconnect',))
-
-
-m = Manager()
-server = TCPServer(('127.0.0.1', 0), channel='sv', certfile=CERT).register(m)
-App().register(m)
-m._running = True
-for _ in range(5):
-    m.tick(0.01)
-port = server.port
-
-stop = False
+    @handler('disconnect', channel='server')
+    def _on_disconnect(self, sock):
+        self.seen.append('disconnect')
 
 
-def loop():  # the handshake blocks inside select(); keep it off the main thread
-    while not stop:
-        m.tick(0.01)
+def run(code):
+    ScriptedConn.calls = 0
+    ScriptedConn.fatal = code
+    lsock = Listener(socket.AF_INET, socket.SOCK_STREAM)
+    lsock.setsockopt(socket.SOL_SOCKET, socket.SO_REUSEADDR, 1)
+    lsock.setblocking(False)
+    lsock.bind(('127.0.0.1', 0))
+    lsock.listen(5)
+
+    app = App()
+    server = TCPServer(lsock).register(app)
+    app._running = True
+    for _ in range(5):
+        app.tick(0)
+    peer = socket.create_connection(lsock.getsockname())
+    for _ in range(200):
+        app.tick(0.01)
+        if app.socks:
+            break
+    conn = app.socks[0]
+
+    written = [b'<part-1>', b'<part-2>', b'<part-3>']
+    for p in written:
+        app.fire(write(conn, p), 'server')
+    for _ in range(30):
+        app.tick(0.001)
+    after_error = list(app.seen)
+    # the application goes on writing (e.g. the next response on a keep-alive connection)
+    written.append(b'<part-4>')
+    app.fire(write(conn, b'<part-4>'), 'server')
+    for _ in range(30):
+        app.tick(0.001)
+
+    peer.settimeout(0.2)
+    got = b''
+    try:
+        while True:
+            d = peer.recv(65536)
+            if not d:
+                break
+            got += d
+    except (socket.timeout, OSError):
+        pass
+    still_client = conn in server._clients
+    peer.close()
+    for c in [lsock] + list(server._clients):
+        try:
+            c.close()
+        except Exception:
+            pass
+    whole = b''.join(written)
+    signalled = bool(after_error)
+    prefix = whole.startswith(got)
+    print('%-10s on the 2nd send: events %s; connection kept open by the server: %s; peer received %r of %r -> %s'
+          % (errno.errorcode[code], app.seen, still_client, got, whole,
+             'ok' if (signalled and prefix) else 'NOT A PREFIX (hole in the stream)'))
+    return signalled and prefix
 
 
-threading.Thread(target=loop, daemon=True).start()
+def main():
+    results = [run(code) for code in (errno.ECONNRESET, errno.EPIPE)]
+    if all(results):
+        print('no violation: after the fatal error nothing else was handed to the OS')
+        return 0
+    print('VIOLATION: bytes were handed to the OS after a fatal send error had dropped earlier ones; '
+          'what the OS accepted is not a prefix of what was written')
+    return 1
 
-got_plain = got_tls = b''
-c = socket.create_connection(('127.0.0.1', port))
-c.settimeout(3)
-c.sendall(b'STARTTLS\n')
-try:
-    got_plain = c.recv(100)
-except socket.timeout:
-    pass
-print('client: clear-text reply within 3 s : %r' % got_plain)
-print('server: buffered per socket         : %s' % [list(d) for d in server._buffers.values()])
 
-# upgrade anyway so that the server's blocking handshake can finish
-ctx = ssl.SSLContext(ssl.PROTOCOL_TLS_CLIENT)
-ctx.check_hostname = False
-ctx.verify_mode = ssl.CERT_NONE
-tc = ctx.wrap_socket(c)
-tc.settimeout(2)
-try:
-    got_tls = tc.recv(100)
-except socket.timeout:
-    pass
-print('client: reply after the TLS upgrade  : %r' % got_tls)
-tc.sendall(b'ping over tls')
-time.sleep(0.5)
-print('server: events                       : %s' % seen)
-stop = True
-
-signalled = any(e[0] in ('error', 'disconnect') for e in seen)
-if b'GO AHEAD\n' not in (got_plain + got_tls) and not signalled:
-    print("VIOLATION: b'GO AHEAD\\n' was passed to a write event on a live connection, was never "
-          'handed to the OS, and no error/disconnect event says so')
-    sys.exit(1)
-print('ok')
-sys.exit(0)
+if __name__ == '__main__':
+    sys.exit(main())
